@@ -149,6 +149,11 @@ def run_impl(obj, cfg):
     return out, [str(w.message) for w in ws]
 
 
+def parse_w(x):
+    x = x.strip()
+    return (int(x[:-1]), True) if x.endswith('e') else (int(x), False)
+
+
 def run_model(reqs):
     res = run_driver([valgen.uni_request()] + reqs, shards=8)[1:]
     out = []
@@ -156,10 +161,10 @@ def run_model(reqs):
         if line.startswith('R '):
             text, _, rest = line[2:].partition(' | W ')
             ws, _, vis = rest.partition(' | V ')
-            out.append((from_cps(text.strip()), [int(x) for x in ws.split(',') if x.strip()], int(vis or 0)))
+            out.append((from_cps(text.strip()), [parse_w(x) for x in ws.split(',') if x.strip()], int(vis or 0)))
         elif line.startswith('X'):
             ws = line.partition(' | W ')[2]
-            out.append(('EXC ValueError', [int(x) for x in ws.split(',') if x.strip()], None))
+            out.append(('EXC ValueError', [parse_w(x) for x in ws.split(',') if x.strip()], None))
         else:
             out.append((line, [], None))
     return out
@@ -187,10 +192,10 @@ def warning_keys(msgs, objs):
 
 def model_warning_keys(refs, heap, objs):
     out = []
-    for r in refs:
+    for r, escaped in refs:
         n = heap[r]
-        if n[0] == 'user' and n[2] in ('raise', 'after'):
-            out.append(r)
+        if n[0] == 'user' and n[2] in ('raise', 'after') and not escaped:
+            out.append(r)                      # its own exception: the message names boom-<r>
         else:
             out.append('T:' + type(objs[r]).__name__)
     return out
